@@ -2,6 +2,7 @@ package main
 
 import (
 	"bufio"
+	"unicode"
 	"math/rand"
 	"os"
 	"path/filepath"
@@ -63,7 +64,7 @@ func dot() string { return "." }
 func (g *gen) mutate(s string) string {
 	b := []byte(s)
 	special := []string{".", "-", "+", "_", "~", "^", ":", "!", " ", "\t", "\n", "v", "V", "0", "00", "9", "a", "A", "z", "rc", "RC", "dev",
-		"#", "p", "/", "*", "@", "\x00", "\x80", "\xff", "\xc3\xa9", "\xc3\x89", "\u0531", "\u212a", "\u1e9e", "\u0130", "\u03a3", "\u0416", "\xe2\x80\x80", "\xc2\x85", "\xc2\xa0", "\xe2", "\xf0\x9f\x98\x80", "\xed\xa0\x80",
+		"#", "p", "/", "*", "@", "\x00", "\x80", "\xff", "\xc3\xa9", "\xc3\x89", "\u0531", "\u212a", "\u1e9e", "\u0130", "\u03a3", "\u0416", "\u0662", "\uff11", "\u00b2", "\u2163", "\u00a0", "\u3000", "\uff21", "\u0301", "\u200b", "\xe2\x80\x80", "\xc2\x85", "\xc2\xa0", "\xe2", "\xf0\x9f\x98\x80", "\xed\xa0\x80",
 		"1", "..", "--", "-r", "_p", "_alpha", "~abc", "sp", "ga", "final", ".post", "post1", "!", "1!", "+local", "99999999999999999999"}
 	for k := 1 + g.r.Intn(3); k > 0; k-- {
 		switch g.r.Intn(6) {
@@ -430,6 +431,45 @@ func loadFixtures(dir, kind string) []string {
 			}
 		}
 		fh.Close()
+	}
+	return out
+}
+
+// ---------------------------------------------------------------- Unicode classes outside ASCII
+// code points that Go's unicode.IsDigit / IsNumber / IsLetter / IsUpper / IsSpace / IsMark accept outside ASCII,
+// plus format characters: Arabic-Indic, Devanagari and fullwidth digits, superscripts, Roman numerals, vulgar fraction,
+// no-break / ideographic / en-quad spaces, NEL, line separator, fullwidth and Greek / Cyrillic letters, Kelvin sign,
+// dotted capital I, combining marks, zero-width space, BOM
+var unicodeClassRunes = []rune{0x0662, 0x0669, 0x0967, 0xFF11, 0xFF10, 0x00B2, 0x00B9, 0x2163, 0x00BD, 0x00A0, 0x3000, 0x2000, 0x0085,
+	0x2028, 0xFF21, 0xFF41, 0x03A3, 0x0416, 0x212A, 0x0130, 0x0301, 0x0308, 0x200B, 0xFEFF}
+
+var unicodeBases = map[string]string{
+	"semver": "1.2.3-rc.1+b5", "nuget": "1.2.3.4-rc.1", "cran": "1.2-3", "rubygems": "1.2.rc1", "debian": "1:1.2~rc1-1",
+	"redhat": "1:1.2~rc1-1.el8", "pypi": "1!1.2rc1.post2+l.1", "packagist": "v1.2.3-RC1", "alpine": "1.2a_rc1-r3", "maven": "1.2-rc-1",
+}
+
+// unicodeClassStrings: every code point inserted at every position of the base version and substituted for every one
+// of its characters (so it lands inside numbers, next to every separator, inside qualifiers and at both ends)
+func unicodeClassStrings(kind string, offset int) []string {
+	base := unicodeBases[kind]
+	var out []string
+	for ri, r := range unicodeClassRunes {
+		c := string(r)
+		for i := 0; i <= len(base); i++ {
+			isDigitPos := i < len(base) && base[i] >= '0' && base[i] <= '9'
+			// digit-like runes replace EVERY digit of the base; otherwise a quarter of the (rune, position) grid per
+			// ecosystem, rotated by [offset], so that the grid is covered across ecosystems and runs
+			if unicode.IsDigit(r) && isDigitPos {
+				out = append(out, base[:i]+c+base[i+1:])
+			}
+			if (ri+i+offset)%4 != 0 {
+				continue
+			}
+			out = append(out, base[:i]+c+base[i:])
+			if i < len(base) {
+				out = append(out, base[:i]+c+base[i+1:])
+			}
+		}
 	}
 	return out
 }
